@@ -87,7 +87,7 @@ def check_sense(kinds, KINDS, iterations, res, sense_log, xres, xlog,
 
 
 # -- connect ---------------------------------------------------------------------
-def check_connect(opts, log, ret, objs, term_at):
+def check_connect(opts, log, ret, objs, term_at, happened=None):
     bad = []
     cbs = [(i, e) for i, e in enumerate(log) if e[0] == 'cb']
     devs = [i for i, e in enumerate(log) if e[0] == 'dev']
@@ -140,6 +140,16 @@ def check_connect(opts, log, ret, objs, term_at):
                 state = 'idle'
         if state == 'release-due':
             bad.append(('on-release-missing|%s' % kind, {}))
+    # R2b: callbacks of an activation need an activation: no more
+    # on-discover (rdwr, card) / on-connect (llcp) calls than targets were
+    # discovered / peers were activated in the environment
+    if happened is not None:
+        for kind in opts:
+            first = 'on-connect' if kind == 'llcp' else 'on-discover'
+            n = len([1 for i, e in cbs if e[1] == kind and e[2] == first])
+            if n > happened.get(kind, 0):
+                bad.append(('callback-without-activation|%s' % kind,
+                            dict(callbacks=n, activations=happened.get(kind))))
     # R3: promptness after terminate() became true
     terms = [(i, e) for i, e in enumerate(log) if e[0] == 'terminate']
     first_true = next((i for i, e in terms if e[1]), None)
